@@ -476,13 +476,18 @@ func (s *Session) Data(r io.Reader) error {
 	if err != nil {
 		return wrapErr(err)
 	}
+	committed := false
 	defer func() {
 		if err := buf.Remove(); err != nil {
 			s.log.Error("failed to remove buffered body", err)
 		}
 
 		// go-smtp will call Reset, but it will call Abort if delivery is non-nil.
-		s.cleanSession()
+		// That is what should happen if we fail before Commit, so clean the
+		// session here only once Commit was attempted.
+		if committed {
+			s.cleanSession()
+		}
 	}()
 
 	if err := s.checkRoutingLoops(header); err != nil {
@@ -497,6 +502,7 @@ func (s *Session) Data(r io.Reader) error {
 		return wrapErr(err)
 	}
 
+	committed = true
 	if err := s.delivery.Commit(bodyCtx); err != nil {
 		return wrapErr(err)
 	}
@@ -531,13 +537,18 @@ func (s *Session) LMTPData(r io.Reader, sc smtp.StatusCollector) error {
 	if err != nil {
 		return wrapErr(err)
 	}
+	committed := false
 	defer func() {
 		if err := buf.Remove(); err != nil {
 			s.log.Error("failed to remove buffered body", err)
 		}
 
 		// go-smtp will call Reset, but it will call Abort if delivery is non-nil.
-		s.cleanSession()
+		// That is what should happen if we fail before Commit, so clean the
+		// session here only once Commit was attempted.
+		if committed {
+			s.cleanSession()
+		}
 	}()
 
 	if strings.EqualFold(header.Get("TLS-Required"), "No") {
@@ -552,6 +563,7 @@ func (s *Session) LMTPData(r io.Reader, sc smtp.StatusCollector) error {
 
 	// We can't really tell whether it is failed completely or succeeded
 	// so always commit. Should be harmless, anyway.
+	committed = true
 	if err := s.delivery.Commit(bodyCtx); err != nil {
 		return wrapErr(err)
 	}
